@@ -655,7 +655,7 @@ fn askjoin(rep: &mut Report) {
                         (false, Ok(42)) => {}
                         (true, Err(rsactor::Error::Join { .. })) => {}
                         (_, other) => rep.v(
-                            "C03 C19",
+                            "C03 C19 C12",
                             format!("ask_join must return exactly what awaiting the handler's own JoinHandle gives - the spawned task's output (42) or its join error - whatever happens to the actor meanwhile; end mode {end_mode} (none, stop, kill, drop), task_panics={task_panics}: got {other:?}"),
                         ),
                     },
@@ -943,6 +943,7 @@ fn backlog(rep: &mut Report) {
 /// the blocking operations through Box<dyn TellHandler> / Box<dyn AskHandler> against the same call on the ActorRef,
 /// over a table of timeouts (None, zero, short, long) and actor states (idle, busy, full mailbox, ended)
 fn erasedblk(rep: &mut Report) {
+    harness::log::install();
     let rt = tokio::runtime::Builder::new_multi_thread().worker_threads(2).enable_time().build().unwrap();
     let mut cases = 0u64;
     let class = |r: &Result<Option<u32>, rsactor::Error>| match r {
@@ -984,6 +985,7 @@ fn erasedblk(rep: &mut Report) {
                     }
                     let th: Box<dyn rsactor::TellHandler<W>> = Box::new(r.clone());
                     let ah: Box<dyn rsactor::AskHandler<W, u32>> = Box::new(r.clone());
+                    let dl0 = harness::log::DEAD_LETTER_EVENTS.load(SeqCst);
                     let t0 = Instant::now();
                     let res: Result<Option<u32>, rsactor::Error> = match (op, erased) {
                         ("tell", false) => r.blocking_tell(W(9), tmo).map(|_| None),
@@ -993,8 +995,14 @@ fn erasedblk(rep: &mut Report) {
                     };
                     let el = t0.elapsed();
                     cases += 1;
-                    got.push((class(&res), el));
+                    // dead letters of this one call (a failed call records exactly one, whichever way it was made)
+                    std::thread::sleep(Duration::from_millis(15));
+                    let dl = harness::log::DEAD_LETTER_EVENTS.load(SeqCst) - dl0;
+                    got.push((format!("{} with {dl} dead letter(s)", class(&res)), el));
                     let _ = r.kill();
+                    if res.is_err() && dl != 1 {
+                        rep.v("C17 C13 C16", format!("blocking_{op}(.., {tname}) on an actor that is {state}, called {}: returned {} and {dl} dead letters were recorded for it (a failed delivery records exactly one)", if erased { "through a boxed handler" } else { "on the ActorRef" }, class(&res)));
+                    }
                 }
                 if got[0].0 != got[1].0 {
                     rep.v("C16 C17", format!("blocking_{op}(.., {tname}) on an actor that is {state}: the ActorRef returns {} (after {:?}), the same call through a Box<dyn {}Handler> returns {} (after {:?})",
@@ -1167,6 +1175,11 @@ fn hookpanic(rep: &mut Report) {
                 note(format!("hookpanic: panic in {at}; afterwards the references are used for {end}"));
                 let log = Arc::new(Mutex::new(vec![]));
                 let (r, jh) = spawn_with_mailbox_capacity::<Hp>((log.clone(), at), 8);
+                // one boxed control handle, asked before and after the actor's end
+                // (not when the ending is "every reference dropped": the box is a strong reference)
+                let ctl: Option<Box<dyn rsactor::ActorControl>> = if end == "drop" { None } else { Some(Box::new(r.clone())) };
+                tokio::task::yield_now().await;
+                let alive_before = (ctl.as_ref().map_or(r.is_alive(), |c| c.is_alive()), r.is_alive());
                 match at {
                     "handler" => {
                         let _ = r.tell(Pm(1)).await;
@@ -1203,6 +1216,11 @@ fn hookpanic(rep: &mut Report) {
                     Ok(Ok(_)) => rep.v("C12 C04", format!("{what}: a hook panicked, yet the JoinHandle yields an ActorResult instead of reporting the panic (the actor survived its own panic); log {l:?}")),
                     Err(_) => rep.v("C12 C07", format!("{what}: the actor did not end within 5 s; log {l:?}")),
                 }
+                let alive_after = ctl.as_ref().map_or(false, |c| c.is_alive());
+                if alive_before.0 != alive_before.1 || alive_after {
+                    rep.v("C16 C11", format!("{what}: a Box<dyn ActorControl> kept across the actor's end said is_alive() = {} while the ActorRef said {} before, and is_alive() = {alive_after} after the JoinHandle had resolved (same answers as the ActorRef; false once the actor has ended)", alive_before.0, alive_before.1));
+                }
+                drop(ctl);
                 let stops = l.iter().filter(|x| x.starts_with("stop")).count();
                 if at != "on_stop" && stops > 0 {
                     rep.v("C04 C12", format!("{what}: on_stop ran although a hook had panicked (on_stop is not run after a panic); log {l:?}"));
@@ -1409,6 +1427,233 @@ fn afterend(rep: &mut Report) {
       }
     }
     rep.s("afterend", format!("cases={cases}"));
+}
+
+// ------------------------------------------------------------------------------------------------ asks still queued at the end
+/// an ask that is still in the mailbox when the actor ends was never handled: whatever its reply type is, the asker
+/// gets an error (never an Ok with some value), exactly one dead letter is recorded, and the handler never runs;
+/// an ask that its caller gave up while it was queued is still accepted work (it keeps the actor referenced and is
+/// handled before a graceful end)
+struct Qa {
+    log: Arc<Mutex<Vec<String>>>,
+}
+impl Actor for Qa {
+    type Args = Arc<Mutex<Vec<String>>>;
+    type Error = String;
+    async fn on_start(a: Self::Args, _: &ActorRef<Self>) -> Result<Self, String> {
+        Ok(Qa { log: a })
+    }
+    async fn on_stop(&mut self, w: &ActorWeak<Self>, killed: bool) -> Result<(), String> {
+        let _ = w;
+        self.log.lock().unwrap().push(format!("stop {killed}"));
+        Ok(())
+    }
+}
+impl Message<Gate> for Qa {
+    type Reply = ();
+    async fn handle(&mut self, m: Gate, _: &ActorRef<Self>) {
+        let _ = m.0.await;
+    }
+}
+struct AsString(u32);
+struct AsUnit(u32);
+struct AsOption(u32);
+struct AsVec(u32);
+impl Message<AsString> for Qa {
+    type Reply = String;
+    async fn handle(&mut self, m: AsString, _: &ActorRef<Self>) -> String {
+        self.log.lock().unwrap().push(format!("h {}", m.0));
+        format!("reply {}", m.0)
+    }
+}
+impl Message<AsUnit> for Qa {
+    type Reply = ();
+    async fn handle(&mut self, m: AsUnit, _: &ActorRef<Self>) {
+        self.log.lock().unwrap().push(format!("h {}", m.0));
+    }
+}
+impl Message<AsOption> for Qa {
+    type Reply = Option<String>;
+    async fn handle(&mut self, m: AsOption, _: &ActorRef<Self>) -> Option<String> {
+        self.log.lock().unwrap().push(format!("h {}", m.0));
+        Some(format!("reply {}", m.0))
+    }
+}
+impl Message<AsVec> for Qa {
+    type Reply = Vec<u8>;
+    async fn handle(&mut self, m: AsVec, _: &ActorRef<Self>) -> Vec<u8> {
+        self.log.lock().unwrap().push(format!("h {}", m.0));
+        vec![m.0 as u8]
+    }
+}
+
+fn queuedask(rep: &mut Report) {
+    harness::log::install();
+    let rt = tokio::runtime::Builder::new_current_thread().enable_time().build().unwrap();
+    let mut cases = 0u64;
+    rt.block_on(async {
+        for ending in ["kill", "stop"] {
+            for ty in ["String", "()", "Option<String>", "Vec<u8>"] {
+                cases += 1;
+                note(format!("queuedask: an ask with reply type {ty} is queued behind a parked handler when the actor ends by {ending}"));
+                let log = Arc::new(Mutex::new(vec![]));
+                let (r, jh) = spawn_with_mailbox_capacity::<Qa>(log.clone(), 8);
+                let (gtx, grx) = tokio::sync::oneshot::channel();
+                r.tell(Gate(grx)).await.unwrap();
+                tokio::task::yield_now().await;
+                if ending == "stop" {
+                    // the stop marker is queued first: the ask behind it is accepted after stop() returned
+                    let _ = r.stop().await;
+                }
+                let before = harness::log::DEAD_LETTER_EVENTS.load(SeqCst);
+                let r2 = r.clone();
+                let asker = tokio::spawn(async move {
+                    match ty {
+                        "String" => r2.ask(AsString(7)).await.map(|v| format!("{v:?}")),
+                        "()" => r2.ask(AsUnit(7)).await.map(|v| format!("{v:?}")),
+                        "Option<String>" => r2.ask(AsOption(7)).await.map(|v| format!("{v:?}")),
+                        _ => r2.ask(AsVec(7)).await.map(|v| format!("{v:?}")),
+                    }
+                });
+                tokio::task::yield_now().await; // the ask is in the mailbox
+                if ending == "kill" {
+                    let _ = r.kill();
+                }
+                let _ = gtx.send(());
+                let res = tokio::time::timeout(Duration::from_secs(5), asker).await;
+                let _ = tokio::time::timeout(Duration::from_secs(5), jh).await;
+                tokio::time::sleep(Duration::from_millis(10)).await;
+                let delta = harness::log::DEAD_LETTER_EVENTS.load(SeqCst) - before;
+                let l = log.lock().unwrap().clone();
+                let handled = l.iter().any(|x| x == "h 7");
+                match res {
+                    Ok(Ok(Err(rsactor::Error::Receive { .. }))) if !handled && delta == 1 => {}
+                    Ok(Ok(Ok(v))) => rep.v("C03 C06 C02", format!("queuedask({ty}, {ending}): the ask was still queued when the actor ended (its handler ran: {handled}) and returned Ok({v}) - a value its handler never produced; {delta} dead letter(s)")),
+                    other => rep.v("C03 C13 C06", format!("queuedask({ty}, {ending}): an ask still queued when the actor ended must fail with Err(Receive), unhandled, with exactly one dead letter; got {other:?}, handled={handled}, {delta} dead letter(s)")),
+                }
+            }
+        }
+        // an ask given up by its caller while queued: still accepted work
+        for how in ["timeout", "dropped future"] {
+            cases += 1;
+            note(format!("queuedask: an ask abandoned by its caller ({how}) while queued; then every reference is dropped"));
+            let log = Arc::new(Mutex::new(vec![]));
+            let (r, jh) = spawn_with_mailbox_capacity::<Qa>(log.clone(), 8);
+            let (gtx, grx) = tokio::sync::oneshot::channel();
+            r.tell(Gate(grx)).await.unwrap();
+            tokio::task::yield_now().await;
+            if how == "timeout" {
+                let _ = r.ask_with_timeout(AsString(7), Duration::from_millis(20)).await;
+            } else {
+                let _ = tokio::time::timeout(Duration::from_millis(20), r.ask(AsString(7))).await;
+            }
+            let weak = ActorRef::downgrade(&r);
+            drop(r);
+            let up = ActorWeak::upgrade(&weak).is_some();
+            if !up || !weak.is_alive() {
+                rep.v("C11 C07", format!("queuedask(abandoned by {how}): the request is still in the mailbox (accepted; its caller merely stopped waiting) and every handle was dropped: a weak handle says upgrade() = {up}, is_alive() = {} (a queued message refers to the actor)", weak.is_alive()));
+            }
+            let _ = gtx.send(());
+            let res = tokio::time::timeout(Duration::from_secs(5), jh).await;
+            let l = log.lock().unwrap().clone();
+            if res.is_err() || l != vec!["h 7".to_string(), "stop false".to_string()] {
+                rep.v("C01 C07 C11", format!("queuedask(abandoned by {how}): the accepted request must be handled before the unreferenced actor ends gracefully; ended={}, log {l:?} (expected [h 7, stop false])", res.is_ok()));
+            }
+        }
+        rep.s("queuedask", format!("cases={cases}"));
+    });
+}
+
+// ------------------------------------------------------------------------------------------------ two asks closing a cycle at once
+/// (builds with deadlock detection only) two actors on two OS threads ask each other at the same instant: exactly one of
+/// the two asks is reported as the one that would close the cycle - never none
+#[cfg(feature = "deadlock")]
+mod cyc {
+    use super::*;
+    pub struct Cy;
+    impl Actor for Cy {
+        type Args = ();
+        type Error = String;
+        async fn on_start(_: (), _: &ActorRef<Self>) -> Result<Self, String> {
+            Ok(Cy)
+        }
+    }
+    pub struct Go(pub ActorRef<Cy>, pub Arc<AtomicU64>);
+    pub struct PingC;
+    impl Message<PingC> for Cy {
+        type Reply = u32;
+        async fn handle(&mut self, _: PingC, _: &ActorRef<Self>) -> u32 {
+            1
+        }
+    }
+    impl Message<Go> for Cy {
+        type Reply = String;
+        async fn handle(&mut self, m: Go, _: &ActorRef<Self>) -> String {
+            // both handlers are running, each on its own thread: meet at a spin barrier so that the two asks start within
+            // nanoseconds of each other
+            m.1.fetch_add(1, SeqCst);
+            while m.1.load(SeqCst) < 2 {
+                std::hint::spin_loop();
+            }
+            match m.0.ask_with_timeout(PingC, Duration::from_millis(300)).await {
+                Ok(_) => "ok".into(),
+                Err(rsactor::Error::Timeout { .. }) => "timeout".into(),
+                Err(_) => "error".into(),
+            }
+        }
+    }
+}
+#[cfg(feature = "deadlock")]
+fn cyclerace(rep: &mut Report) {
+    use cyc::*;
+    let mut rounds = 0u64;
+    for round in 0..1500u32 {
+        rounds += 1;
+        let bar = Arc::new(AtomicU64::new(0));
+        let mk = || {
+            let (tx, rx) = std::sync::mpsc::channel::<(ActorRef<Cy>, std::sync::mpsc::Sender<ActorRef<Cy>>)>();
+            let _ = tx;
+            rx
+        };
+        let _ = mk;
+        // each actor lives on its own thread with its own current-thread runtime
+        let (atx, arx) = std::sync::mpsc::channel::<ActorRef<Cy>>();
+        let (btx, brx) = std::sync::mpsc::channel::<ActorRef<Cy>>();
+        let (ptx_a, prx_a) = std::sync::mpsc::channel::<ActorRef<Cy>>();
+        let (ptx_b, prx_b) = std::sync::mpsc::channel::<ActorRef<Cy>>();
+        let run = |me_tx: std::sync::mpsc::Sender<ActorRef<Cy>>, peer_rx: std::sync::mpsc::Receiver<ActorRef<Cy>>, bar: Arc<AtomicU64>| {
+            std::thread::spawn(move || {
+                let rt = tokio::runtime::Builder::new_current_thread().enable_time().build().unwrap();
+                rt.block_on(async move {
+                    let (r, jh) = rsactor::spawn::<Cy>(());
+                    let _ = me_tx.send(r.clone());
+                    let peer = peer_rx.recv().unwrap();
+                    let out = r.ask(Go(peer, bar)).await;
+                    let _ = r.kill();
+                    let joined = tokio::time::timeout(Duration::from_secs(5), jh).await;
+                    let panicked = matches!(joined, Ok(Err(ref e)) if e.is_panic());
+                    (out.ok(), panicked)
+                })
+            })
+        };
+        let ta = run(atx, prx_a, bar.clone());
+        let tb = run(btx, prx_b, bar.clone());
+        let (a, b) = (arx.recv().unwrap(), brx.recv().unwrap());
+        let _ = ptx_a.send(b);
+        let _ = ptx_b.send(a);
+        let (ra, rb) = (ta.join().unwrap_or((None, false)), tb.join().unwrap_or((None, false)));
+        // a deadlock report ends the asking actor's task with a panic (its own Go request is then answered with an error)
+        let reports = [ra.1, rb.1].iter().filter(|x| **x).count();
+        if reports == 0 {
+            rep.v("C14", format!("cyclerace (round {round}): two actors, each on its own thread, asked each other at the same instant (300 ms timeouts): neither ask was reported as closing the cycle - outcomes {:?} and {:?} (exactly one of the two asks panics with the cycle; the other completes with an error or a reply)", ra.0, rb.0));
+            break;
+        }
+    }
+    rep.s("cyclerace", format!("rounds={rounds}"));
+}
+#[cfg(not(feature = "deadlock"))]
+fn cyclerace(rep: &mut Report) {
+    rep.s("cyclerace", "not applicable: this build has no deadlock detection".into());
 }
 
 // ------------------------------------------------------------------------------------------------ late completion (real time)
@@ -2096,6 +2341,25 @@ fn blocking(rep: &mut Report) {
         }
         let _ = slow.kill();
         let _ = idle.kill();
+        // the same with a timed blocking_tell that is legitimately waiting on a full mailbox in flight
+        let (full, _j3) = rt.block_on(async { spawn_with_mailbox_capacity::<B>((log.clone(), 700), 1) });
+        let (idle2, _j4) = rt.block_on(async { spawn_with_mailbox_capacity::<B>((log.clone(), 0), 4) });
+        full.blocking_tell(W(44), None).unwrap(); // in the handler for 700 ms
+        std::thread::sleep(Duration::from_millis(20));
+        full.blocking_tell(W(45), None).unwrap(); // fills the only slot
+        let f2 = full.clone();
+        let th = std::thread::spawn(move || f2.blocking_tell(W(46), Some(Duration::from_secs(5))).is_ok());
+        std::thread::sleep(Duration::from_millis(100));
+        let t0 = Instant::now();
+        let a = idle2.blocking_tell(W(47), Some(Duration::from_millis(300)));
+        let ta = t0.elapsed();
+        let first = th.join().unwrap_or(false);
+        calls += 2;
+        if !first || !matches!(a, Ok(())) || ta > Duration::from_millis(300) {
+            rep.v("C09 C10 C17", format!("while a blocking_tell(.., Some(5 s)) was waiting for a slot of another actor's full mailbox on another thread (ok={first}), blocking_tell(.., Some(300 ms)) into an EMPTY mailbox returned {a:?} after {ta:?}: a send never waits while a slot is free"));
+        }
+        let _ = full.kill();
+        let _ = idle2.kill();
     }
     // (b8) what a blocking_tell with a timeout returns agrees with what happened to the message, also when the
     //      actor ends right after handling it
@@ -2367,6 +2631,11 @@ impl Message<K> for I {
 }
 
 fn idlewin_check(rep: &mut Report, what: &str, plan: &[(u32, char, bool)], log: &[String], served_after: bool) {
+    // every actor has its own idle handler: the first pass runs when this actor is first idle, whatever other actors of
+    // the same type have done
+    if !plan.is_empty() && !log.iter().any(|l| l == "run 0") {
+        rep.v("C08", format!("{what}: the actor was idle (every sender had finished, 15 ms passed, an ask was answered) and its on_run body never ran, not even once; plan {:?}; log {log:?}", &plan[..plan.len().min(4)]));
+    }
     // (1) after Ok(false) the body never executes again; (2) mail produced during a pass is handled before the next pass
     let runs: Vec<usize> = log.iter().filter_map(|l| l.strip_prefix("run ").map(|x| x.parse().unwrap())).collect();
     let rets: Vec<(usize, char)> = log.iter().filter_map(|l| l.strip_prefix("ret ")).map(|x| { let mut it = x.split(' '); (it.next().unwrap().parse().unwrap(), it.next().unwrap().chars().next().unwrap()) }).collect();
@@ -2643,7 +2912,7 @@ fn refs(rep: &mut Report) {
                 match res {
                     Ok(Ok(r)) => {
                         if what == "kill" && !r.was_killed() {
-                            rep.v("C06 C05", "kill() then drop of the last reference: the result says the actor was not killed".into());
+                            rep.v("C06 C05 C04", "kill() then drop of the last reference: the kill signal was consumed (nothing else could end the actor: its mailbox is empty), yet the result says the actor was not killed".into());
                         }
                         if what != "kill" && r.was_killed() {
                             rep.v("C05 C04", format!("{what}() then drop of the last reference: the result says the actor was killed"));
@@ -2745,6 +3014,8 @@ fn main() {
             "hookpanic" => ("C04 C12 C05", 240),
             "selfchain" => ("C01 C07 C11 C05", 240),
             "afterend" => ("C11 C03", 240),
+            "queuedask" => ("C03 C06 C11 C01 C07 C13", 240),
+            "cyclerace" => ("C14", 600),
             "erasedblk" => ("C16 C17", 600),
             "blocking" => ("C17 C10 C03", 720),
             "ids" => ("C11", 120),
@@ -2775,6 +3046,8 @@ fn main() {
                     "hookpanic" => hookpanic(&mut r),
                     "selfchain" => selfchain(&mut r),
                     "afterend" => afterend(&mut r),
+                    "queuedask" => queuedask(&mut r),
+                    "cyclerace" => cyclerace(&mut r),
                     "erasedblk" => erasedblk(&mut r),
                     "blocking" => blocking(&mut r),
                     "ids" => ids(&mut r),
